@@ -31,7 +31,18 @@ var starveQuick = map[string][]string{
 	"C20": {"C20/engine/"},
 }
 
+// starveD1Thorough: small scenarios for which the thorough tier combines a starved goroutine with
+// one deviation.
+var starveD1Thorough = []string{"C02/s1t0/", "C02/s1t1/[W@0]", "C02/second-flow/[W@0]", "C18/plain/n1/", "C18/two-start-events/waits[0]", "C06/racing/alt2/signal/concurrent", "C12/unjoined/parallelGateway/branches2/L1", "C12/unjoined/parallelGateway/branches2/shared-end-direct/L1", "C03/pargw-race/N2M1", "C09/engine/par(t,t)", "C09/engine/sub(par(t,t))"}
+
 func starveFor(prop, tier string, sc *Scn) int {
+	if tier == "thorough" && sc.Starve == 0 && sc.Opts.Bound == 1 && !sc.Opts.Unbounded {
+		for _, p := range starveD1Thorough {
+			if strings.Contains(sc.Name, p) {
+				return 64
+			}
+		}
+	}
 	if sc.Starve != 0 || sc.Opts.Bound != 0 || sc.Opts.Unbounded || prop == "RT" {
 		return sc.Starve
 	}
